@@ -138,21 +138,45 @@ def emsa_verify_contract(r=None, lencase=None):
                     modifies=[], opaque=[S + 'mgf1'])
 
 
-def emsa_encode_contract(r=None):
+def emsa_encode_contract(r=None, part=None):
+    """part None: the whole contract (what callers see); 'main' / 'bound': the two halves it is PROVED in -- `bound` needs the
+    opt-in arithmetic facts (int_lemmas, be_unfold), which make every query of the other clauses slower"""
     salt = 'rnd_tape(old(rnd_cursor()))'
     H = S + 'emsa_pss_H(mhash.g_alg, %s, %s)' % (MHASH, salt)
     em = S + 'emsa_pss_em(mhash.g_alg, %s, %s, emBits, %s, mgf(%s, %s - %s - 1))' % (HLEN, MHASH, salt, H, EMLEN, HLEN)
+    lemmas = {}
+    if r is not None and part == 'bound':
+        # stepwise proof of `bound` (OS2IP(EM) < 2^emBits: what makes RSASP1 applicable, RFC 8017 8.1.1 / 9.1 note) for
+        # emBits = 8 (emLen - 1) + d, d = r or 8: leading octet < 2^d (step 11), positional notation (cons instance of be(), tail
+        # bound), and d doublings of 2^x
+        d = r or 8
+        for j in range(1, d + 1):
+            lemmas['pow2_step%d' % j] = 'pow2(emBits - %d) == 2 * pow2(emBits - %d)' % (j - 1, j)
+        lemmas['pow2_emBits'] = 'pow2(emBits) == %d * pow2(8 * (len(result) - 1))' % (2 ** d)
+        lemmas['lead'] = 'nth(result, 0) < %d' % (2 ** d)
+        lemmas['split'] = 'result == bytes([nth(result, 0)]) + result[1:]'
+        lemmas['cons'] = ('be(bytes([nth(result, 0)]) + result[1:]) == nth(result, 0) * pow2(8 * (len(result) - 1)) + be(result[1:])')
+        lemmas['tail'] = 'be(result[1:]) < pow2(8 * (len(result) - 1))'
+    ensures = {'rfc8017_9_1_1': 'result == ' + em,
+               'length': 'len(result) == ' + EMLEN,
+               'bound': 'be(result) < pow2(emBits)',
+               'salt': 'len(%s) == sLen' % salt,
+               'entropy': 'rnd_cursor() == old(rnd_cursor()) + 1 and sys_cursor() == old(sys_cursor())'}
+    if part == 'main':
+        del ensures['bound']
+    elif part == 'bound':
+        ensures = {'bound': ensures['bound']}
     return Contract(P + '_EMSA_PSS_ENCODE',
                     params={'mhash': OHASH, 'emBits': 'nat', 'randFunc': RANDFUNC, 'mgf': MGF_PARAM, 'sLen': 'nat'},
                     requires=[EM_DOMAIN] + lmask_case(r),
                     raises={'ValueError': ('iff', '%s < %s + sLen + 2' % (EMLEN, HLEN))},
                     on_raise={'ValueError': ['rnd_cursor() == old(rnd_cursor())', 'sys_cursor() == old(sys_cursor())']},
                     result='bytes',
-                    ensures={'rfc8017_9_1_1': 'result == ' + em,
-                             'length': 'len(result) == ' + EMLEN,
-                             'salt': 'len(%s) == sLen' % salt,
-                             'entropy': 'rnd_cursor() == old(rnd_cursor()) + 1 and sys_cursor() == old(sys_cursor())'},
-                    modifies=[], opaque=[S + 'mgf1'])
+                    lemmas={'exit': lemmas},
+                    ensures=ensures,
+                    modifies=[], opaque=[S + 'mgf1'],
+                    # opt-in ground facts of positional notation / 2^x (vf/pyvc/models.py be_value, ops.py pow2), used by `bound`
+                    options=({'int_lemmas': [], 'be_unfold': True} if part == 'bound' else {}))
 
 
 def model_emsa_encode(E, st, args, kwargs):
@@ -222,23 +246,26 @@ def pss_sign_contract():
     salt = 'rnd_tape(old(rnd_cursor()))'
     em, sig = terms(salt)
     return Contract(SCHEME + '.sign', params={'msg_hash': OHASH},
-                    raises={'ValueError': ('iff', '%s or be(%s) >= %s or (hasattr(self._key, "_d") and %s)' % (short, em0, KEY_N, fault)),
-                            'TypeError': ('iff', 'not hasattr(self._key, "_d") and not (%s) and be(%s) < %s' % (short, em0, KEY_N))},
+                    # (RSASP1's "message representative out of range" cannot occur: OS2IP(EM) < 2^(modBits-1) <= n, clause `bound` of
+                    # _EMSA_PSS_ENCODE and the defining inequality of the bit length)
+                    raises={'ValueError': ('iff', '%s or (hasattr(self._key, "_d") and %s)' % (short, fault)),
+                            'TypeError': ('iff', 'not hasattr(self._key, "_d") and not (%s)' % short)},
                     result='bytes',
                     ensures={'rfc8017_8_1_1': 'result == i2osp(%s, %s)' % (sig, K),
                              'salt': 'len(%s) == %s' % (salt, PSS_SLEN),
                              'entropy': 'rnd_cursor() == old(rnd_cursor()) + 1'},
-                    modifies=[], opaque=[S + 'mgf1', S + 'emsa_pss_em'])
+                    modifies=[], opaque=[S + 'mgf1', S + 'emsa_pss_em'], options={'int_lemmas': []})
 
 
-def registry(r=None, lencase=None):
+def registry(r=None, lencase=None, part=None):
     r = None if r in (None, '') else int(r)
     lencase = lencase or None
+    part = part or None
     reg = common_registry()
     add_rsa_key(reg)
     add_mgf(reg)
     reg.add(emsa_verify_contract(r, lencase))
-    reg.add(emsa_encode_contract(r))
+    reg.add(emsa_encode_contract(r, part))
     reg.models[P + '_EMSA_PSS_ENCODE'] = model_emsa_encode
     add_scheme(reg)
     reg.add(pss_verify_contract())
